@@ -227,6 +227,9 @@ def parser_state(p):
 
 def classify_exc(phase, res):
     # the phase (static evaluation inside parse(), evaluate, select) is not part of the mechanism
+    if res[1] == 'RecursionError':
+        # the frame in which the stack is finally exhausted depends on the depth of the caller: keep the module only
+        return 'C03/RecursionError@%s' % res[2].rsplit('.', 1)[0]
     return 'C03/%s@%s' % (res[1], res[2])
 
 
